@@ -19,7 +19,7 @@ pub ghost struct GEnv {
 }
 
 pub trait Language: Sized {}
-pub trait Content: Sized {}
+pub trait Content: Sized { type Underlying: Clone + PartialEq; }
 pub trait Doc: Sized {
     type Source: Content;
     type Lang: Language;
